@@ -181,6 +181,11 @@ def real(name):
     """the real, unmodified module gemclus.<name> from REPO (for replays)."""
     if REPO not in sys.path:
         sys.path.insert(0, REPO)
+    g = sys.modules.get("gemclus")
+    if g is not None and not os.path.abspath(getattr(g, "__file__", "") or "").startswith(os.path.abspath(REPO) + os.sep):
+        # an installed copy was imported first (editable install of another checkout): drop it, the tree under REPO is the subject
+        for k in [k for k in sys.modules if k == "gemclus" or k.startswith("gemclus.")]:
+            del sys.modules[k]
     return importlib.import_module("gemclus" + ("." + name if name else ""))
 
 
